@@ -225,3 +225,28 @@ Proof.
     + intros Hle. lia.
     + intros _. exact Hl.
 Qed.
+
+(* ------------------------------------------------------------------ the kube judgement *)
+(* one accepted step of Check.prop_kube inside the event alphabet: the most recent publication
+   and h.endpoints are exactly the current addresses, a changed address set was published *)
+Lemma kube_step_judgement_sound : forall t lastpub e pubs eps evs' obs',
+  prop_kube t lastpub (e :: evs') ((pubs, eps) :: obs') = true -> kwf_b t e = true ->
+  let t' := ktruth_step t e in
+  let lp := last pubs lastpub in
+  (forall ip, In ip lp <-> In ip t') /\
+  (forall ip, In ip eps <-> In ip t') /\
+  ((exists ip, ~ (In ip t <-> In ip t')) -> pubs <> []) /\
+  prop_kube t' lp evs' obs' = true.
+Proof.
+  intros t lastpub e pubs eps evs' obs' H W. cbn zeta. cbn [prop_kube] in H. rewrite W in H.
+  apply andb_true_iff in H. destruct H as [H R].
+  apply andb_true_iff in H. destruct H as [H C].
+  apply andb_true_iff in H. destruct H as [H E].
+  apply andb_true_iff in H. destruct H as [A _].
+  apply zs_eqb_eq in A. apply zs_eqb_eq in E.
+  split; [|split; [|split; [|exact R]]].
+  - intros ip. rewrite <- (canon_set_in (last pubs lastpub)), A, canon_set_in. reflexivity.
+  - intros ip. rewrite E, canon_set_in. reflexivity.
+  - intros [ip Hd] Hnil. subst pubs. cbn [is_nil negb] in C. rewrite orb_false_r in C.
+    apply zs_eqb_eq in C. apply Hd. rewrite <- (canon_set_in t), C, canon_set_in. reflexivity.
+Qed.
